@@ -6,6 +6,8 @@
      struct f1:k f2:k ...            -> ok F1,F2 | A1,A2 | E1,E2 (all Go names | accessors | emitted fields)
                                         k = n (no accessors) N (bit, no accessors) b (bit, Set/IsSet) f (Set/Clear/IsSet) F (bit with Clear: unused)
      oblig_consts n... | oblig_files n... | oblig_dirs n... | oblig_globals n... | oblig_fields <m1,m2,..|-> f:k ...
+     racc <GoType> f1,f2             -> ok SetGoTypeF1AndF2    result-mask accessor of a function
+     oblig_methods <r1,r2|-> f:k ... -> the struct's accessors and the given result accessors are pairwise distinct
      lists                           -> struct_methods | function_methods | helper_idents | always | closed *)
 open Conv
 open BuildModel
@@ -61,6 +63,11 @@ let run = function
   | "oblig_fields" :: ms :: fs ->
       let ms = if ms = "-" then [] else List.map str_of_string (String.split_on_char ',' ms) in
       "ok " ^ b2s (fields_ok ms (List.map field_of_string fs))
+  | ["racc"; aff; fs] ->
+      "ok " ^ string_of_str (result_accessor (str_of_string aff) (List.map str_of_string (String.split_on_char ',' fs)))
+  | "oblig_methods" :: raccs :: fs ->
+      let raccs = if raccs = "-" then [] else List.map str_of_string (String.split_on_char ',' raccs) in
+      "ok " ^ b2s (methods_ok (List.map field_of_string fs) raccs)
   | ["lists"] -> "ok " ^ names struct_methods ^ " | " ^ names function_methods ^ " | " ^ names helper_idents
                  ^ " | " ^ names struct_methods_always ^ " | " ^ names struct_methods_closed
   | l -> "driver-error unknown op " ^ String.concat " " l
